@@ -110,6 +110,29 @@ def handler : Handler := fun op j =>
     | .ok (ex, d') => some (ok (jObj [("executed", jNs ex), ("dir", dirSteps d'),
         ("saves", jNs (trainSaves (match restore d 0 true with | .ok s => s | .error _ => 0) nsteps spc))]))
     | .error e => some (err e.toString)
+  | "session" => do
+    -- constructor + train() of a BasicFlaxTrainer (+ optionally a second train() on the same object)
+    let keep ← fNat? j "keep"
+    let steps ← optNats? j "dir"
+    let d : Dir Nat := steps.map (fun l => l.map (fun s => (s, s)))
+    let optN (k : String) : Option (Option Nat) := match field? j k with
+      | none => some none | some .null => some none | some v => (getNat? v).map some
+    let c : TrainCfg := {
+      lenTrain := ← fNat? j "len_train", lenTest := ← fNat? j "len_test", batchSize := ← fNat? j "batch_size",
+      numEpochs := ← fNat? j "num_epochs", spcOpt := ← optN "spc", logOpt := ← optN "log_every", evalOpt := ← optN "steps_per_eval",
+      checkpointing := ← fBool? j "checkpointing", hasVars0 := ← fBool? j "has_vars0", logflag := ← fBool? j "log" }
+    let again := (fBool? j "again").getD false
+    let jEv (e : StepEv) : Json := jArr [jN e.step, jN e.batch, jB e.logged, jN e.epoch, jB e.ckpt]
+    let jOut (o : SessionOut) : Json := jObj [("offset", jN o.offset), ("events", jArr (o.events.map jEv)),
+      ("eval_batches", jN o.evalBatches), ("dir", dirSteps o.dir)]
+    match trainSession keep c d with
+    | .error e => some (err e.toString)
+    | .ok o =>
+      if again then
+        match trainAgain keep c o with
+        | .error e => some (err e.toString)
+        | .ok o' => some (ok (jObj [("first", jOut o), ("second", jOut o'), ("N", jN c.numSteps), ("spe", jN c.spe)]))
+      else some (ok (jObj [("first", jOut o), ("N", jN c.numSteps), ("spe", jN c.spe)]))
   | _ => none
 
 def main : IO Unit := mainLoop handler
